@@ -894,9 +894,71 @@ void as_struct_list_initialisation()
   }
 }
 
+// A USER-DEFINED skipper (the documented extension point: derive from skipper::tag, provide skip()) that can fail FATALLY:
+// blanks and {comments}; a comment that is never closed is a fatal error.  "fatal errors stop backtracking": the repetition
+// *skipper hands a fatal error of its operand on (skipper/repetition_decl.hpp), so the parse fails - it does not rewind
+// and carry on with the text of the unclosed comment.
+class comment_skipper : private fcppt::parse::skipper::tag
+{
+public:
+  comment_skipper() = default;
+  template <typename Ch>
+  [[nodiscard]] fcppt::parse::skipper::result<Ch> skip(fcppt::reference<fcppt::parse::basic_stream<Ch>> const _state) const
+  {
+    auto const start = _state.get().get_position();
+    auto const first = _state.get().get_char();
+    if (first.has_value() && first.get_unsafe() == Ch(' '))
+      return fcppt::parse::skipper::make_success<Ch>();
+    if (first.has_value() && first.get_unsafe() == Ch('{'))
+    {
+      for (;;)
+      {
+        auto const ch = _state.get().get_char();
+        if (!ch.has_value())
+          return fcppt::parse::skipper::make_failure<Ch>(fcppt::parse::error<Ch>{std::basic_string<Ch>{Ch('u'), Ch('n'), Ch('c'), Ch('l'), Ch('o'), Ch('s'), Ch('e'), Ch('d')}, fcppt::parse::fatal_tag{}});
+        if (ch.get_unsafe() == Ch('}'))
+          return fcppt::parse::skipper::make_success<Ch>();
+      }
+    }
+    _state.get().set_position(start);
+    return fcppt::parse::skipper::make_failure<Ch>(fcppt::parse::error<Ch>{std::basic_string<Ch>{Ch('n'), Ch('o')}});
+  }
+};
+void user_skipper_with_fatal_errors()
+{
+  std::string const e = "static/user-skipper/fatal-error-through-repetition";
+  if (!vf::entry_enabled(e) || !vf::mine(vf::hash_str(e)))
+    return;
+  vf::set_entry(e);
+  namespace sk = fcppt::parse::skipper;
+  // x, then any number of lower-case letters or braces - a grammar that could go on with the text of an unclosed comment
+  auto const parser = p::literal{'x'} >> *p::char_set{'a', 'b', '{', '}', 'y'};
+  auto const skipper = *comment_skipper{};
+  struct sample
+  {
+    char const *text;
+    bool success;
+  } const samples[] = {{"x", true},          {"x ab", true},      {"x{c}ab", true},      {"x {c} a {d}b", true}, {"x{never closed", false},
+                       {"x a{never", false}, {"x{}{ab", false},   {"{open", false},      {"x{a}{b}y", true},     {" x", true}};
+  for (sample const &sm : samples)
+  {
+    if (!vf::begin_case("input \"%s\" with the skipper *comment_skipper", sm.text))
+      continue;
+    vf::note_distinct(vf::hash_mix(vf::hash_str(e), vf::hash_str(sm.text)));
+    auto const r = p::phrase_parse_string(parser, std::string{sm.text}, skipper);
+    VF_COUNT("static/user-skipper/cases");
+    if (!sm.success)
+      VF_COUNT("static/user-skipper/fatal-cases");
+    if (r.has_success() != sm.success)
+      vf::violation(std::string("static/user-skipper/") + (sm.success ? "rejects-what-the-semantics-accepts" : "accepts-what-the-semantics-rejects(fatal skipper error swallowed)"), "mismatch",
+                    std::string("input ") + sm.text);
+  }
+}
+
 void body()
 {
   as_struct_list_initialisation();
+  user_skipper_with_fatal_errors();
   // a fixture is registered once per translation unit (= world) it occurs in: merge by name
   std::vector<fixture> fixtures;
   {
